@@ -43,8 +43,31 @@ def _answers(obj, dom_space, Pq, pspace, vals):
     return torch.as_tensor(obj._contains(pts, par)).reshape(-1).double().numpy() > 0.5
 
 
+def _bound_defaults(obj, depth=0, seen=None):
+    """Names bound as defaults in every shape function reachable from a domain object."""
+    from torchphysics.utils.user_fun import UserFunction
+    seen = set() if seen is None else seen
+    out = []
+    if id(obj) in seen or depth > 6:
+        return out
+    seen.add(id(obj))
+    for name, v in sorted(getattr(obj, "__dict__", {}).items()):
+        if isinstance(v, UserFunction):
+            out.append((name, sorted(v.defaults.keys()) if isinstance(v.defaults, dict) else None))
+            out += _bound_defaults(v, depth + 1, seen)
+        elif type(v).__module__.startswith("torchphysics.problem.domains"):
+            out += [(name + "." + a, b) for a, b in _bound_defaults(v, depth + 1, seen)]
+    return out
+
+
 def snapshot(obj, dom_space, Pq, pspace, full):
     need = sorted(obj.necessary_variables)
+    bound = _bound_defaults(obj)
+    r = _snapshot(obj, dom_space, Pq, pspace, full, need)
+    return r + (bound,)
+
+
+def _snapshot(obj, dom_space, Pq, pspace, full, need):
     vals = {v: full[v] for v in need if v in full}
     try:
         ans = _answers(obj, dom_space, Pq, pspace, vals)
@@ -171,7 +194,8 @@ def run_c17(case):
                 for i, (o, s0) in enumerate(zip(objs[:-1], snaps)):
                     s1 = snapshot(o, dom_space, Pq, pspace, full)
                     if s1 != s0:
-                        what = "necessary-variables" if s1[0] != s0[0] else ("membership" if s1[1] != s0[1] else "volume")
+                        what = "necessary-variables" if s1[0] != s0[0] else ("membership" if s1[1] != s0[1] else (
+                            "volume" if s1[2] != s0[2] else "bound-defaults-of-shape-functions"))
                         out.append(viol("C17", "original-unchanged", "earlier-domain-changed:" + what, "", index=i))
                         break
                 snaps.append(snapshot(Dn, dom_space, Pq, pspace, full))
